@@ -529,3 +529,90 @@ def generic_stateful_stream(ctx, harness_bin, stream, n, length, rule_sig, extra
                 "replay_cmd": f"./check {ctx.pid} --replay <this file>",
             }, signature=sig)
     return found
+
+
+# ---------------------------------------------------------------- parallel generation (slow streams)
+
+def parallel_traces(ctx, harness_bin, n_cases, length, procs=12, extra_args=()):
+    """Runs `procs` harness processes with seeds derived from ctx.seed, each generating a share of the
+    cases; returns the list of trace files. Used for streams whose cases take seconds (system)."""
+    import concurrent.futures
+    procs = max(1, min(procs, n_cases))
+    share = (n_cases + procs - 1) // procs
+    jobs = []
+    for i in range(procs):
+        tr = ctx.work / f"{harness_bin}-{i}.trace"
+        cmd = [hbin(harness_bin), "--seed", str(ctx.seed * 1000 + i), "--n", str(share), "--len", str(length),
+               "--tier", ctx.tier, "--out", str(tr)] + list(extra_args)
+        jobs.append((cmd, tr))
+    out = []
+    def one(job):
+        cmd, tr = job
+        r = run(cmd, timeout=6 * 3600)
+        return (r.returncode, r.stdout[-3000:], tr)
+    with concurrent.futures.ThreadPoolExecutor(max_workers=procs) as ex:
+        for rc, tail, tr in ex.map(one, jobs):
+            if rc != 0:
+                ctx.log(f"harness {harness_bin} failed (rc={rc}): {tail}")
+                report_violation(ctx, "harness-crash", {"harness": harness_bin, "output": tail, "trace": str(tr)},
+                                 signature=f"crash:{harness_bin}")
+            if tr.exists():
+                out.append(tr)
+    return out
+
+
+def judge_traces(ctx, harness_bin, stream, traces, rule_sig, extra_args=(), max_reports=1):
+    """Runs the model driver `stream` over existing trace files, shrinks and reports failures.
+    Returns True if any failing input was found."""
+    found = False
+    reported = {}
+    for tr in traces:
+        vf = Path(str(tr) + "." + stream.replace(" ", "_") + ".verdict")
+        if not run_model(ctx, stream, tr, vf):
+            report_violation(ctx, "model-driver-crash", {"stream": stream}, found_input=False)
+            continue
+        cases = parse_cases(tr, vf)
+        if cases is None:
+            report_violation(ctx, "model-driver-desync", {"stream": stream}, found_input=False)
+            continue
+        histogram(ctx, cases)
+        ctx.traces_validated += len(cases)
+        if cases and not ctx.samples:
+            ctx.samples.append({"stream": stream, "case": cases[0]["id"],
+                                "ops": [f"{strip_obs(t)}  ## {v}" for t, v in cases[0]["ops"][:14]]})
+        for c in cases:
+            ff = first_failure(c)
+            if ff is None:
+                continue
+            found = True
+            cls = fail_class(ff[1])
+            if reported.get(cls, 0) >= max_reports:
+                continue
+            reported[cls] = reported.get(cls, 0) + 1
+            small = shrink(ctx, harness_bin, stream, c, extra_args, budget=60)
+            sf = first_failure(small) or ff
+            sig = rule_sig(small, sf[0], sf[1])
+            kind = "implementation-vs-oracle" if sf[1].startswith("FAIL oracle") else "model-vs-implementation"
+            report_violation(ctx, kind, {
+                "stream": stream, "harness": harness_bin, "case": small["id"],
+                "ops": [strip_obs(t) for t, _ in small["ops"][: sf[0] + 1]],
+                "verdict": sf[1],
+                "replay_cmd": f"./check {ctx.pid} --replay <this file>",
+            }, signature=sig)
+    return found
+
+
+def corpus_traces(ctx, harness_bin, corpus=None, extra_args=()):
+    out = []
+    cdir = VERIF / "corpus" / (corpus or harness_bin)
+    if cdir.exists():
+        for f in sorted(cdir.glob("*.ops")):
+            tr = ctx.work / f"corpus-{f.stem}.trace"
+            r = run([hbin(harness_bin), "--ops", str(f), "--out", str(tr)] + list(extra_args), timeout=3600)
+            if r.returncode != 0:
+                ctx.log(f"harness failed on corpus {f}: {r.stdout[-1500:]}")
+                report_violation(ctx, "harness-crash", {"corpus": str(f), "output": r.stdout[-3000:]},
+                                 signature=f"crash:{harness_bin}:corpus")
+                continue
+            out.append(tr)
+    return out
